@@ -1367,6 +1367,13 @@ func (enc *VP8Encoder) EncodeFrame() ([]byte, error) {
 		if !doSearch {
 			break // quality mode: single pass
 		}
+		// Last allowed pass: the levels just computed are the ones that get
+		// emitted, so the quantisers (and the reconstruction planes) must stay
+		// those of this pass. Adjusting here would write the next pass's
+		// quantiser header over this pass's levels.
+		if pass == maxPasses-1 {
+			break
+		}
 		// Rate control: check if we hit the target.
 		if enc.adjustQuantForTarget() {
 			break
